@@ -9,7 +9,7 @@
 From Coq Require Import ZArith.
 From RsdnsModel Require Import Base GenConst GenCursor GenTypes GenTracker GenReader GenSpec Cursor Names Labels Header Tracker RData Reader Iter.
 From RsdnsModel.Spec Require Import WireName LinearPass.
-From RsdnsModel.Proofs Require Import CursorSafe ListN Window RoundTrip SpecExec ParseSpec TrackerRefine ReaderTotal.
+From RsdnsModel.Proofs Require Import CursorSafe ListN Window RoundTrip Defined SpecExec ParseSpec TrackerRefine ReaderTotal.
 From Coq Require Import ZifyBool ZifyN ZifyNat.
 Open Scope N_scope.
 
@@ -516,6 +516,35 @@ Section RR.
     destruct (next_section (ri_tr it) (pos (ri_cur it))) as [tr1 so]. cbn [snd] in E. subst so. eauto.
   Qed.
 
+  (* one record that is neither passed over nor decodable: next() returns an error *)
+  Lemma iter_step_fail it idx hw x f : IState it idx hw -> nq <= idx -> getN rs (idx - nq) = Some x ->
+    skip_it x = false -> a_fits255 x = false \/ decoded x = None ->
+    exists it' e, records_read_impl msg (S f) it = (it', Err e).
+  Proof.
+    intros (Hw & Hp & Ht & Hsec) Hge Hg Hsk Hbad. pose proof (getN_lt _ _ _ Hg) as Hlt0.
+    destruct (P_record (idx - nq) x Hg) as (P1 & P2 & P3 & P4). replace (nq + (idx - nq)) with idx in * by lia.
+    destruct (iter_tracker_step (ri_tr it) idx (P idx) (P (idx + 1)) Ht Hsec Hge ltac:(lia)) as (tr1 & tr' & En & Es & Ht' & Hsec').
+    pose proof (iter_header_is_record_at msg (ri_cur it) Hw) as Hh. rewrite Hp, P3 in Hh. destruct Hh as (Hh & Hna & M1 & M2 & M3).
+    cbn [records_read_impl]. rewrite Hp, En. rewrite <- Hp, Hh. unfold skip_it in Hsk. rewrite Hsk.
+    unfold decoded in Hbad. destruct (read_rdata msg (a_type x) (a_rdlen x)) as [m|] eqn:Er; [|eauto].
+    pose proof Hw as [Hl Ho].
+    assert (Ecl : c_clone_with_pos (c_set_pos (ri_cur it) (a_type_off x + 10)) (pos (ri_cur it)) = c_with_pos msg (P idx)).
+    { unfold c_clone_with_pos, c_with_pos, c_set_pos. cbn [orig lim]. rewrite Ho, Hl, Hp. reflexivity. }
+    rewrite Ecl.
+    pose proof (read_is_name_at msg Inline (c_with_pos msg (P idx)) ltac:(split; reflexivity)) as Hn.
+    cbn [pos c_with_pos] in Hn. rewrite Hna in Hn.
+    destruct (a_fits255 x) eqn:Efit.
+    - destruct Hn as (ls & Esn & Hn). rewrite Hn.
+      assert (Ec1 : c_set_pos (ri_cur it) (a_type_off x + 10) = c_with_pos msg (a_type_off x + 10)).
+      { unfold c_set_pos, c_with_pos. rewrite Hl, Ho. reflexivity. }
+      rewrite Ec1. destruct Hbad as [Hbad|Hbad]; [discriminate|].
+      assert (Hwc : whole msg (c_with_pos msg (a_type_off x + 10))) by (split; reflexivity).
+      pose proof (read_rdata_defined msg _ _ m Er _ (whole_cwf msg _ Hwc) I) as [_ Dd].
+      destruct (m (c_with_pos msg (a_type_off x + 10))) as [c2 y]. cbn [snd] in Hbad, Dd.
+      destruct y as [d| | | | |]; try discriminate; try (exfalso; exact Dd). eauto.
+    - destruct Hn as [e Hn]. rewrite Hn. eauto.
+  Qed.
+
   (* records k.. of the message, as a suffix of rs *)
   Definition suffix_at (k : N) (rest : list aitem) : Prop := forall j, getN rest j = getN rs (k + j).
   Lemma suffix_tail k x rest : suffix_at k (x :: rest) -> getN rs k = Some x /\ suffix_at (k + 1) rest.
@@ -566,6 +595,89 @@ Section RR.
     - destruct Hrun as (it' & k' & rest' & hw' & E & S' & Hsuf' & Hk' & Hshorter & Hit'). rewrite E.
       rewrite (IH rest' k' it' hw' (y :: acc) l' S' Hsuf' Hk' ltac:(lia) ltac:(lia) Hit').
       cbn [rev]. rewrite <- app_assoc. reflexivity.
+  Qed.
+
+  (* the general walk: the records yielded before the first one that is neither passed over nor
+     decodable, and whether the walk reached the end *)
+  Fixpoint iter_walk (k : N) (its : list aitem) : list rr * bool :=
+    match its with
+    | [] => ([], true)
+    | x :: rest =>
+      if skip_it x then iter_walk (k + 1) rest
+      else match (if a_fits255 x then decoded x else None) with
+           | Some d => let (l, b) := iter_walk (k + 1) rest in (rr_of k x d :: l, b)
+           | None => ([], false)
+           end
+    end.
+
+  Lemma read_impl_run_walk : forall rest k f it hw, IState it (nq + k) hw -> suffix_at k rest -> k + lenN rest = an + ns + ar ->
+    (length rest < f)%nat ->
+    match iter_walk k rest with
+    | ([], true) => exists it', records_read_impl msg f it = (it', Ok RNone)
+    | ([], false) => exists it' e, records_read_impl msg f it = (it', Err e)
+    | (y :: l', b) => exists it' k' rest' hw', records_read_impl msg f it = (it', Ok (RItem y)) /\
+                   IState it' (nq + k') hw' /\ suffix_at k' rest' /\ k' + lenN rest' = an + ns + ar /\
+                   (length rest' < length rest)%nat /\ iter_walk k' rest' = (l', b)
+    end.
+  Proof.
+    induction rest as [|x rest IH]; intros k f it hw Hs Hsuf Hk Hf; (destruct f as [|f]; [cbn in Hf; lia|]); cbn [iter_walk].
+    - apply (iter_step_end it (nq + k) hw f Hs). unfold lenN in Hk. cbn in Hk. lia.
+    - destruct (suffix_tail _ _ _ Hsuf) as [Hg Hsuf'].
+      assert (Hk' : k + 1 + lenN rest = an + ns + ar) by (unfold lenN in *; cbn [length] in Hk; lia).
+      destruct (skip_it x) eqn:Esk.
+      + destruct (iter_step_skip it (nq + k) hw x f Hs ltac:(lia) ltac:(replace (nq + k - nq) with k by lia; exact Hg) Esk) as (it1 & E1 & S1).
+        rewrite E1. replace (nq + k + 1) with (nq + (k + 1)) in S1 by lia.
+        specialize (IH (k + 1) f it1 _ S1 Hsuf' Hk' ltac:(cbn in Hf; lia)).
+        destruct (iter_walk (k + 1) rest) as [[|y l'] b]; [exact IH|].
+        destruct IH as (it' & k' & rest' & hw' & A1 & A2 & A3 & A4 & A5 & A6). exists it', k', rest', hw'.
+        repeat (split; [assumption|]). split; [cbn; lia|assumption].
+      + destruct (if a_fits255 x then decoded x else None) as [d|] eqn:Ed.
+        * assert (Efit : a_fits255 x = true) by (destruct (a_fits255 x); [reflexivity|discriminate]). rewrite Efit in Ed.
+          destruct (iter_step_item it (nq + k) hw x d f Hs ltac:(lia) ltac:(replace (nq + k - nq) with k by lia; exact Hg) Esk Efit Ed) as (it1 & E1 & S1).
+          replace (nq + k - nq) with k in E1 by lia.
+          destruct (iter_walk (k + 1) rest) as [l0 b] eqn:El0.
+          exists it1, (k + 1), rest, (N.max hw (nq + k + 1)). replace (nq + (k + 1)) with (nq + k + 1) by lia.
+          split; [exact E1|]. split; [exact S1|]. split; [exact Hsuf'|]. split; [exact Hk'|]. split; [cbn; lia|exact El0].
+        * apply (iter_step_fail it (nq + k) hw x f Hs ltac:(lia) ltac:(replace (nq + k - nq) with k by lia; exact Hg) Esk).
+          destruct (a_fits255 x); [right; exact Ed|left; reflexivity].
+  Qed.
+
+  Lemma drain_walk : forall n rest k it hw acc, IState it (nq + k) hw -> suffix_at k rest -> k + lenN rest = an + ns + ar ->
+    (length rest < n)%nat -> (length rest < iter_fuel msg)%nat ->
+    exists stop, records_drain msg n it acc = Ok (rev acc ++ fst (iter_walk k rest), stop) /\
+                 (snd (iter_walk k rest) = true <-> stop = None).
+  Proof.
+    induction n as [|n IH]; intros rest k it hw acc Hs Hsuf Hk Hn Hf; [lia|]. cbn [records_drain].
+    pose proof (read_impl_run_walk rest k (iter_fuel msg) it hw Hs Hsuf Hk Hf) as Hrun.
+    destruct (iter_walk k rest) as [[|y l'] b] eqn:Ew.
+    - destruct b.
+      + destruct Hrun as (it' & E). rewrite E. exists None. cbn [fst snd]. rewrite app_nil_r. split; [reflexivity|tauto].
+      + destruct Hrun as (it' & e & E). rewrite E. exists (Some e). cbn [fst snd]. rewrite app_nil_r. split; [reflexivity|]. split; discriminate.
+    - destruct Hrun as (it' & k' & rest' & hw' & E & S' & Hsuf' & Hk' & Hshorter & Hw'). rewrite E.
+      destruct (IH rest' k' it' hw' (y :: acc) S' Hsuf' Hk' ltac:(lia) ltac:(lia)) as (stop & Ed & Hst).
+      rewrite Hw' in Ed, Hst. exists stop. cbn [fst snd] in *. split; [|exact Hst].
+      rewrite Ed. cbn [rev]. rewrite <- app_assoc. reflexivity.
+  Qed.
+
+  (* MessageIterator::records() over a completely parsed message, in general: the records of known
+     type and class up to the first whose owner exceeds 255 octets or whose data does not decode
+     (or whose type has no decoder, such as OPT), then the end — or that record's error *)
+  Theorem iter_records_walk h : lenN rs = an + ns + ar ->
+    h_qd h <= 65535 -> h_an h = an -> h_ns h = ns -> h_ar h = ar ->
+    exists stop, iter_records msg h (P nq) = Ok (fst (iter_walk 0 rs), stop) /\ (snd (iter_walk 0 rs) = true <-> stop = None).
+  Proof.
+    intros Hcr E1 E2 E3 E4. unfold iter_records.
+    assert (Hs : IState (mkRecIt (c_with_pos msg (P nq)) (tr_new h) false) (nq + 0) 0).
+    { split; [split; reflexivity|]. split; [cbn [ri_cur pos c_with_pos]; f_equal; lia|]. cbn [ri_tr]. split.
+      - unfold twf, cw, tr_new. cbn. lia.
+      - unfold tr_new, secs_at, rd, sec_start, sec_count, lin. cbn [secs l_an l_ns l_ar]. rewrite E2, E3, E4. f_equal; f_equal; lia. }
+    pose proof rs_len_le as Hle.
+    destruct (drain_walk (iter_fuel msg) rs 0 _ 0 [] Hs) as (stop & Ed & Hst).
+    - intro j. reflexivity.
+    - lia.
+    - unfold iter_fuel, lenN in *. lia.
+    - unfold iter_fuel, lenN in *. lia.
+    - exists stop. split; [exact Ed|exact Hst].
   Qed.
 
   (* the records start where the questions end *)
@@ -1301,6 +1413,16 @@ Section W.
     lenN qs < nq \/ (lenN qs = nq /\ lenN rs < sec_start (lin nq an ns ar) s) ->
     exists r' e, rd_seek msg s r = (r', Err e) /\ r_done r' = true.
   Proof. intros. use step_seek_skip_fails. Qed.
+
+  Theorem iter_records_walk_any : forall h, lenN rs = an + ns + ar ->
+    h_qd h <= 65535 -> h_an h = an -> h_ns h = ns -> h_ar h = ar -> lenN qs = nq ->
+    exists stop, iter_records msg h e1 = Ok (fst (iter_walk msg nq an ns ar 0 rs), stop) /\
+                 (snd (iter_walk msg nq an ns ar 0 rs) = true <-> stop = None).
+  Proof.
+    intros h H1 H2 H3 H4 H5 Hfull. destruct Hp as (A1 & A2 & A3 & A4 & A5 & A6 & A7 & A8 & A9 & A10 & A11).
+    assert (HP : P qs rs e2 nq = e1) by (eapply (P_nq msg A1 A2 nq an ns ar qs rs e1 e2); eassumption). rewrite <- HP.
+    eapply (iter_records_walk msg A1 A2 nq an ns ar qs rs e1 e2 A4 A5 A6 A7 A8 A9 A10 A11); eassumption.
+  Qed.
 End W.
 
 Theorem linear_parsed msg l : linear_of msg = Some l ->
